@@ -100,8 +100,18 @@ def gen_plan(rng, tier='quick', traces=None):
     for ci in range(ncurves):
         n = len(pool[ci]['points'])
         if n >= 5 and rng.random() < 0.8:
-            k = rng.randint(1, min(7, n - 2)) if rng.random() < 0.95 else 0
-            vals = sorted(rng.sample(range(1, n - 1), k))
+            shape = rng.random()
+            if shape < 0.12 and n >= 6:
+                # a consecutive run of knees (what a detector returns on a smooth bend), possibly long
+                a = rng.randrange(1, n - 2)
+                vals = list(range(a, min(n - 1, a + rng.choice([2, 3, 5, 16, 20, 30]))))
+            elif shape < 0.17:
+                vals = list(range(1, n - 1))                    # every interior point
+            elif shape < 0.22 and n >= 8:
+                vals = list(range(1, n - 1, 2))                 # every other point
+            else:
+                k = rng.randint(1, min(7, n - 2)) if rng.random() < 0.95 else 0
+                vals = sorted(rng.sample(range(1, n - 1), k))
             pool.append({'kind': 'idx', 'curve': ci, 'values': vals, 'layout': rng.choice(['C', 'C', 'view', 'list', 'i32']),
                          'salt': rng.randrange(1 << 30), 'readonly': rng.random() < 0.2})
         if n >= 5 and rng.random() < 0.7:
